@@ -150,8 +150,15 @@ def build(L, c, kw, want_pal=False):
         return comps, None, None
     try:
         o = p.orbit(primary=sim.particles[0])
+        od = p.orbit()                     # default (Jacobi) primary: a centre-of-mass particle outside the simulation
     except ValueError as ex:
         return comps, None, str(ex)
+    if o.T == o.T and od.T == od.T and abs(o.P) < 1e300 and o.e > 1e-3:      # T is ill-defined for circular orbits
+        dd = abs(o.T - od.T)
+        if o.e < 1:
+            dd = math.fmod(dd, abs(o.P)); dd = min(dd, abs(o.P) - dd)
+        if dd > 1e-6 * (abs(o.P) + abs(sim.t) + abs(o.T)):
+            return comps, None, "T read with the default primary (%r) differs from T read with primary=particles[0] (%r) at sim.t=%r" % (od.T, o.T, sim.t)
     if want_pal:
         D = ctypes.c_double
         out = [D() for _ in range(6)]
@@ -413,6 +420,140 @@ def reject_sweep(ctx, L):
                           "finite arguments %s are accepted and give a non-finite particle without any error" % kw)
 
 
+# ----------------------------------------------------------------------------- element getters / setters of Particle
+GETTERS = ["a", "e", "inc", "Omega", "omega", "pomega", "f", "M", "l", "theta", "T", "P", "n", "d", "v", "h", "rhill",
+           "pal_h", "pal_k", "pal_ix", "pal_iy"]
+ANGLES = {"Omega", "omega", "pomega", "f", "M", "l", "theta"}
+SETTERS = ["a", "P", "e", "inc", "Omega", "omega", "pomega", "f", "M", "l", "theta", "T", "pal_h", "pal_k", "pal_ix", "pal_iy"]
+
+
+def _mk(L, t, mode, rng, two_body):
+    rb = L.rebound
+    sim = rb.Simulation()
+    if mode == "set":
+        sim.t = t
+    sim.add(m=1.0)
+    sim.add(m=rng.choice([0.0, 1e-3]), a=rng.uniform(0.8, 1.5), e=rng.uniform(0.05, 0.6), inc=rng.uniform(0.1, 1.2),
+            Omega=rng.uniform(0.2, 6), omega=rng.uniform(0.2, 6), f=rng.uniform(0.2, 6))
+    if not two_body:
+        sim.add(m=1e-5, a=rng.uniform(4, 6), e=rng.uniform(0.05, 0.3), inc=rng.uniform(0.1, 0.5), Omega=1.0, omega=2.0, f=rng.uniform(0, 6))
+    if mode == "integrate" and t != 0:
+        sim.integrator = "ias15"
+        sim.dt = 0.01 * (1 if t > 0 else -1)
+        sim.integrate(t)
+    return sim
+
+
+def element_api(ctx, L):
+    """every element getter and setter of rebound.Particle on particles that live in a simulation whose clock is
+    t in {0, 12.5, -3} (set directly / reached by integrate)"""
+    rng = ctx.rng
+    D = ctypes.c_double
+    clib = L.clib
+    clib.reb_orbit_from_particle.restype = L.rebound.Orbit
+    clib.reb_orbit_from_particle.argtypes = [D, L.rebound.Particle, L.rebound.Particle]
+    clib.reb_simulation_jacobi_com.restype = L.rebound.Particle
+    fails = {}
+
+    def fail(key, rep):
+        fails.setdefault(key, rep)
+    for t in (0.0, 12.5, -3.0):
+        for mode in ("set", "integrate"):
+            for rep_i in range(ctx.scale(2, 12)):
+                # ---- getters: all read routes agree, T and M are tied by the simulation clock
+                sim = _mk(L, t, mode, rng, two_body=True)
+                ps = sim.particles
+                p = ps[1]
+                o = p.orbit()
+                ox = p.orbit(primary=ps[0])
+                oc = clib.reb_orbit_from_particle(sim.G, p, clib.reb_simulation_jacobi_com(ctypes.byref(p)))
+                os_ = sim.orbits()[0]
+                desc = {"kind": "element-api", "t": sim.t, "mode": mode, "state": [p.m, p.x, p.y, p.z, p.vx, p.vy, p.vz]}
+                for g in GETTERS:
+                    ctx.evaluations += 1
+                    v = getattr(p, g)
+                    ref = getattr(o, g)
+                    if not (v == ref or (v != v and ref != ref)):
+                        fail("api:getter-" + g, dict(desc, what="p.%s differs from p.orbit().%s" % (g, g), got=v, want=ref))
+                    if not (getattr(oc, g) == ref):
+                        fail("api:c-route-" + g, dict(desc, what="reb_orbit_from_particle differs from p.orbit() in " + g, got=getattr(oc, g), want=ref))
+                    # two-body: the Jacobi primary of particle 1 IS particle 0 (up to one rounding of x*m/m)
+                    for nme, oo in (("p.orbit(primary=particles[0])", ox), ("sim.orbits()", os_)):
+                        w = getattr(oo, g)
+                        bad = angdiff(w, ref) > 1e-7 if g in ANGLES else abs(w - ref) > 1e-7 * (1 + abs(ref))
+                        if bad:
+                            fail("api:routes-" + g, dict(desc, what="%s.%s differs from p.orbit().%s" % (nme, g, g), got=w, want=ref))
+                if angdiff((sim.t - o.T) * abs(o.n), o.M) > 1e-7 * (1 + abs(sim.t) * abs(o.n)):
+                    fail("api:T-clock", dict(desc, what="(sim.t - p.T)|n| != M (mod 2pi): T is not measured on the simulation clock",
+                                             T=o.T, M=o.M, n=o.n))
+                # ---- T is constant along a two-body orbit (modulo the period)
+                if o.e < 1:
+                    T0, P0 = o.T, o.P
+                    sim.integrator = "ias15"
+                    sim.integrate(sim.t + rng.uniform(0.3, 2.0) * (1 if t >= 0 else -1))
+                    o2 = sim.particles[1].orbit()
+                    ctx.evaluations += 1
+                    dT = math.fmod(o2.T - T0, P0)
+                    dT = min(abs(dT), abs(abs(dT) - abs(P0)))
+                    if dT > 1e-6 * abs(P0):
+                        fail("api:T-constant", dict(desc, what="T changes along a two-body orbit", T_before=T0, T_after=o2.T, P=P0, t_after=sim.t))
+                # ---- setters: set then get; the other elements keep their values
+                for sname in SETTERS:
+                    sim = _mk(L, t, mode, rng, two_body=False)
+                    idx = rng.choice([1, 2])
+                    p = sim.particles[idx]
+                    o0 = p.orbit()
+                    if sname in ANGLES:
+                        val = rng.uniform(0.1, 6.1)
+                    elif sname == "a":
+                        val = o0.a * rng.uniform(0.7, 1.4)
+                    elif sname == "P":
+                        val = o0.P * rng.uniform(0.7, 1.4)
+                    elif sname == "e":
+                        val = rng.uniform(0.05, 0.7)
+                    elif sname == "inc":
+                        val = rng.uniform(0.1, 1.3)
+                    elif sname == "T":
+                        val = sim.t + rng.uniform(-0.45, 0.45) * o0.P
+                    elif sname in ("pal_h", "pal_k"):
+                        val = rng.uniform(-0.3, 0.3)
+                    else:
+                        val = rng.uniform(-0.5, 0.5)
+                    ctx.evaluations += 1
+                    d2 = {"kind": "element-api", "t": sim.t, "mode": mode, "index": idx, "setter": sname, "value": val,
+                          "state": [p.m, p.x, p.y, p.z, p.vx, p.vy, p.vz]}
+                    try:
+                        setattr(p, sname, val)
+                    except Exception as ex:
+                        fail("api:setter-" + sname, dict(d2, what="setter raised %r" % (ex,)))
+                        continue
+                    o1 = p.orbit()
+                    got = getattr(p, sname)
+                    if sname in ANGLES:
+                        bad = angdiff(got, val) > 1e-6
+                    elif sname == "T":
+                        dd = math.fmod(got - val, o1.P)
+                        bad = min(abs(dd), abs(abs(dd) - abs(o1.P))) > 1e-7 * abs(o1.P)
+                    else:
+                        bad = abs(got - val) > 1e-7 * (1 + abs(val))
+                    if bad:
+                        fail("api:setter-" + sname, dict(d2, what="p.%s = x; p.%s gives something else" % (sname, sname), got=got))
+                    # invariance of what the setter is documented to keep (shape / orientation)
+                    keep = {"a": ["e", "inc"], "P": ["e", "inc"], "e": ["a", "inc"], "inc": ["a", "e"], "Omega": ["a", "e", "inc"],
+                            "omega": ["a", "e", "inc"], "pomega": ["a", "e", "inc"], "f": ["a", "e", "inc"], "M": ["a", "e", "inc"],
+                            "l": ["a", "e", "inc"], "theta": ["a", "e", "inc"], "T": ["a", "e", "inc"],
+                            "pal_h": ["a", "pal_k", "pal_ix", "pal_iy"], "pal_k": ["a", "pal_h", "pal_ix", "pal_iy"],
+                            "pal_ix": ["a", "pal_h", "pal_k", "pal_iy"], "pal_iy": ["a", "pal_h", "pal_k", "pal_ix"]}[sname]
+                    for kname in keep:
+                        if abs(getattr(o1, kname) - getattr(o0, kname)) > 1e-7 * (1 + abs(getattr(o0, kname))):
+                            fail("api:setter-" + sname, dict(d2, what="p.%s = x changed %s" % (sname, kname), before=getattr(o0, kname), after=getattr(o1, kname)))
+                    if angdiff((sim.t - o1.T) * abs(o1.n), o1.M) > 1e-7 * (1 + abs(sim.t) * abs(o1.n)):
+                        fail("api:T-clock", dict(d2, what="after the setter (sim.t - p.T)|n| != M (mod 2pi)", T=o1.T, M=o1.M, n=o1.n))
+    ctx.nontrivial.add(("element-api", len(GETTERS), len(SETTERS)))
+    for key, rep in fails.items():
+        ctx.violation(key, rep, True, "Particle element API: " + rep["what"])
+
+
 def search(ctx, L):
     nk = kepler_search(ctx, L)
     rng = ctx.rng
@@ -446,6 +587,7 @@ def search(ctx, L):
     for key, rep in firstp.items():
         ctx.violation(key, rep, True, "Pal element round trip fails: " + rep["failures"][0]["what"])
     reject_sweep(ctx, L)
+    element_api(ctx, L)
     ctx.extra["searcher"] = {"kepler_points": nk, "roundtrips": nrt, "roundtrip_classes": kinds}
 
 
